@@ -179,6 +179,13 @@ def check(res, tier):
                 ("for step %s,%s" % (a, b), vb + "Für %s %s i von 1 bis 9 mit Schrittgröße quelle, mache:\n\tSchreibe i.\n" % ({"Die": "jede", "Der": "jeden"}[A[0].split()[0]], A[1])),
                 ("for start %s,%s" % (a, b), vb + "Für %s %s i von quelle bis 9, mache:\n\tSchreibe i.\n" % ({"Die": "jede", "Der": "jeden"}[A[0].split()[0]], A[1])),
             ]
+            # a field whose default has one numeric type, given explicitly with a value of another one (and left at its default)
+            for c in NUM:
+                pos_progs.append(("field given %s<-%s, default written as %s" % (a, b, c), vb +
+                                  'Wir nennen die Kombination aus\n\t%s %s feld mit Standardwert %s,\n\tder Zahl rest mit Standardwert 0,\neinen Halter, und erstellen sie so:\n'
+                                  '\t"ein Halter mit <feld>" oder\n\t"ein Halter mit <feld> und <rest>" oder\n\t"ein leerer Halter"\n'
+                                  'Der Halter h ist ein Halter mit quelle.\nDer Halter g ist ein leerer Halter.\nDer Halter f ist ein Halter mit %s und 2.\nSchreibe (feld von h).\n' % (
+                                      {"Die": "der", "Der": "dem"}[A[0].split()[0]], A[1], NUM[c][2], B[2])))
     for b in NUM:
         B = NUM[b]
         vb = "%s quelle ist %s.\nDie Zahlen Liste zl ist eine Liste, die aus 1, 2, 3, 4, 5, 6 besteht.\nDer Text tx ist \"abcdef\".\n" % (B[0], B[2])
